@@ -61,6 +61,13 @@ def _arm_watchdog():
         pass
 
 
+def _rearm_watchdog():
+    try:
+        signal.setitimer(signal.ITIMER_REAL, WATCHDOG_S * _WD_SCALE[0])
+    except ValueError:
+        pass
+
+
 def _disarm_watchdog():
     try:
         signal.setitimer(signal.ITIMER_REAL, 0)
@@ -151,6 +158,8 @@ def execute(scenario: Dict[str, Any], sched_spec: Optional[Dict[str, Any]] = Non
         if left:
             _loop.drain_more()
     loop.final_cleanup = _final_cleanup
+    # the watchdog measures one synchronous stretch: it is re-armed at every loop iteration
+    loop.on_iteration = _rearm_watchdog
     ctx.set_current(run)
     asyncio.set_event_loop(loop)
     res = Result()
